@@ -53,7 +53,7 @@ Public API (see the individual docstrings):
     SimNet(names, max_qubits=5, max_regs=100, topology=None, rng=None, host_order=None, bringup=None)
         .nodes .clock .rng .trace .last_schedule .log
         bring-up mode only (see `SimNet._bring_up`): .run_until(t) .missing_connections()
-        .retry_deadlines() .connection_log;  bringing_up(spec) = context manager
+        .retry_deadlines() .fire_next_retry() .connection_log;  bringing_up(spec) = context manager
         .client(name) -> RemoteReference            .label(cid) .head(cid)
         .pending(detail=False) .deliver(cid) .timers() .fire_next_timer(i=0)
         .advance(dt) .flush_decrefs()
@@ -655,6 +655,21 @@ class _TimeProxy:
 # SimNet
 # ---------------------------------------------------------------------------
 
+def _setup_failure(layer, node, exc, names, topology, network_name, config_file):
+    """the real code refuses to build a node of a VALID network configuration: a verdict, not a tool failure"""
+    from . import core
+    try:
+        cfg = json.load(open(config_file))
+    except Exception:
+        cfg = None
+    raise core.ImplementationFailure(
+        "setup:%s:%s" % (layer, type(exc).__name__),
+        "the %s of node %s of network %r cannot be built from a valid configuration (nodes %s, topology %s): %s: %s"
+        % (layer, node, network_name, list(names), topology, type(exc).__name__, exc),
+        {"kind": "setup", "layer": layer, "node": node, "names": list(names), "topology": topology,
+         "network_name": network_name, "config": cfg, "exception": "%s: %s" % (type(exc).__name__, exc)})
+
+
 class SimNet:
     """A network of real virtual nodes, one per name, fully connected by PB
     over scheduled in-memory pipes.
@@ -738,8 +753,11 @@ class SimNet:
             self._bring_up(bringup, host_order)
             return
         for n in self.names:
-            conf = ns.SocketsConfig(self.config_file, network_name=network_name, config_type="vnode")
-            self.nodes[n] = ns.V.virtualNode(conf.hostDict[n], conf, maxQubits=max_qubits, maxRegisters=max_regs)
+            try:
+                conf = ns.SocketsConfig(self.config_file, network_name=network_name, config_type="vnode")
+                self.nodes[n] = ns.V.virtualNode(conf.hostDict[n], conf, maxQubits=max_qubits, maxRegisters=max_regs)
+            except Exception as e:      # the real configuration parser / node constructor refuses a valid network
+                _setup_failure("vnode", n, e, self.names, topology, network_name, self.config_file)
             self._sfac[n] = pb.PBServerFactory(self.nodes[n])
         self.set_host_order(host_order if host_order is not None else self.names)
         fac2edge = {}
@@ -931,6 +949,22 @@ class SimNet:
     def retry_deadlines(self):
         """bring-up mode: sorted deadlines (virtual time) of the armed connection retry timers"""
         return sorted(c.getTime() for c in self.clock.calls if self._is_retry(c))
+
+    def fire_next_retry(self):
+        """bring-up mode: virtual time passes until the earliest armed connection retry timer, which fires (with
+        every other retry due at that instant; connect attempts are decided, an accepted one completes its
+        handshake at once).  For a driver whose `run()` reported "dead" (no message, no ordinary timer) while an
+        operation waits for a missing connection WITHOUT polling: the background timers alone make the connection
+        come up.  Returns the deadline, or None if no retry is armed.  Not recorded in `trace` (it is forced: the
+        only thing that can happen)."""
+        self._check_live()
+        if self._bringup is None:
+            raise RuntimeError("fire_next_retry() needs a SimNet built with bringup=...")
+        dl = self.retry_deadlines()
+        if not dl:
+            return None
+        self._fire_retries(dl[0])
+        return dl[0]
 
     # -- wiring ------------------------------------------------------------
 
@@ -1509,8 +1543,11 @@ class NqNet(SimNet):
                       {"_next_ent_id": collections.defaultdict(int), "_next_create_id": collections.defaultdict(int)})
             sh = type("SH_" + n, (SubroutineHandler,),
                       {"_get_executor_class": classmethod(lambda cls, flavour=None, ex=ex: ex)})
-            f = NetQASMFactory(qn.hostDict[n], n, qn, sh) if network_name == "default" else \
-                NetQASMFactory(qn.hostDict[n], n, qn, sh, network_name=network_name)
+            try:
+                f = NetQASMFactory(qn.hostDict[n], n, qn, sh) if network_name == "default" else \
+                    NetQASMFactory(qn.hostDict[n], n, qn, sh, network_name=network_name)
+            except Exception as e:
+                _setup_failure("qnodeos", n, e, self.names, topology, network_name, self.config_file)
             self.roots[n] = self.client(n)
             f.set_virtual_node(self.roots[n])
             self.facs[n] = f
